@@ -9,7 +9,8 @@ Everything follows the Rust control flow *as it is*, including the two places wh
 descendant aggregates are not maintained (DESIGN.md section 7, F2 and F3).  `Cfg.fixF2` switches
 `remove_entry_and_descendants` to the repaired order (surviving ancestors are updated before the
 links are dropped); `fixF2 := false` is the code as written.  `Cfg.fixPanic` likewise switches
-`check_and_record_ancestors` to the repaired version that rejects instead of panicking.
+`check_and_record_ancestors` to the repaired version that rejects instead of panicking; `fixF3` and
+`fixMid` switch in the two proposed repairs that are not in /repo (work/C11-fix-F3.diff, C11-fix-mid.diff).
 
 Abstractions: hashes / out-points / header hashes are small naturals; `u64`/`usize` additions are
 plain `Nat` additions (the saturating bound 2^64 is never reached: the sum of all fees is bounded by
@@ -85,6 +86,12 @@ structure Cfg where
   /-- repaired `check_and_record_ancestors` (see /verif/work/C11-fix-panic.diff): reject instead of
       panicking when the eviction took another parent of the new entry with it -/
   fixPanic : Bool := false
+  /-- repaired `record_entry_descendants` (see /verif/work/C11-fix-F3.diff): an entry inserted above pooled
+      children has its own, its ancestors' and its descendants' aggregates rebuilt from the links -/
+  fixF3 : Bool := false
+  /-- repaired `remove_entry` (see /verif/work/C11-fix-mid.diff): removing an entry that has pooled
+      ancestors and pooled descendants rebuilds both sides from the links -/
+  fixMid : Bool := false
 deriving Repr, Inhabited
 
 structure Pool where
@@ -104,6 +111,12 @@ structure Pool where
   pending : Nat := 0
   gap : Nat := 0
   proposed : Nat := 0
+  /-- GHOST (never read by any operation, not part of the implementation's state): set when one of the
+      two patterns occurred under which the code as written does not maintain the aggregates —
+      an entry inserted while some of its children are pooled, or `remove_entry` of an entry that has
+      both pooled ancestors and pooled descendants.  The aggregate theorems are stated for histories
+      whose final state has `ghostBad = false`. -/
+  ghostBad : Bool := false
 deriving Repr, Inhabited
 
 /-! ## small list helpers (sets as duplicate-free lists) -/
@@ -124,17 +137,21 @@ def parentsOf (L : LinkMap) (id : Nat) : List Nat := ((linkOf L id).map (·.pare
 def childrenOf (L : LinkMap) (id : Nat) : List Nat := ((linkOf L id).map (·.children)).getD []
 def keys (L : LinkMap) : List Nat := L.map (·.1)
 
-/-- nodes reachable from `S` in one or more `g`-steps, all intermediate nodes drawn from `ns`
-    (Warshall-style recursion on the list of allowed intermediates: no fuel, any graph). -/
-def reachFrom (g : Nat → List Nat) : List Nat → List Nat → List Nat
-  | [], S => dedup (S.flatMap g)
-  | k :: ns, S =>
-    let A := reachFrom g ns S
-    if k ∈ A then union A (reachFrom g ns [k]) else A
+/-- one round: `A ∪ g(A)` (duplicate-free when `A` is) -/
+def expand (g : Nat → List Nat) (A : List Nat) : List Nat := union A (dedup (A.flatMap g))
 
-/-- `TxLinksMap::calc_relation_ids(stage, relation)`: the stage itself plus everything reachable -/
+/-- saturate `A` under `g`: repeat `expand` until nothing new appears (at most `fuel` rounds; every
+    unfinished round adds a node, so `fuel` > number of nodes is always enough) -/
+def saturate (g : Nat → List Nat) : Nat → List Nat → List Nat
+  | 0, A => A
+  | f + 1, A =>
+    let B := expand g A
+    if B.length = A.length then A else saturate g f B
+
+/-- `TxLinksMap::calc_relation_ids(stage, relation)`: the stage itself plus everything reachable from it
+    (`ns` = the keys of the link map: every `g`-successor of a key is a key). -/
 def calcRelation (g : Nat → List Nat) (ns : List Nat) (stage : List Nat) : List Nat :=
-  union (dedup stage) (reachFrom g ns stage)
+  saturate g (ns.length + stage.length + 1) (dedup stage)
 
 /-- `calc_ancestors(id)` = `calc_relation_ids(parents(id), Parents)` -/
 def calcAnc (L : LinkMap) (id : Nat) : List Nat := calcRelation (parentsOf L) (keys L) (parentsOf L id)
@@ -228,18 +245,42 @@ def removeEdges (s : Pool) (t : Tx) : Pool :=
 
 def idsOf (l : List Entry) : List Nat := l.map fun e => e.tx.id
 
+/-! ## the specification side: recomputation from the current contents -/
+
+def sumW (s : Pool) (ids : List Nat) : W :=
+  ids.foldl (fun acc id => match getEntry s id with
+    | some e => acc.add e.tx.w
+    | none => acc) W.zero
+
+/-- ancestors aggregate of `id` recomputed from the links: itself plus every other ancestor -/
+def recomputeAnc (s : Pool) (e : Entry) : W := e.tx.w.add (sumW s ((calcAnc s.links e.tx.id).filter (· ≠ e.tx.id)))
+def recomputeDesc (s : Pool) (e : Entry) : W := e.tx.w.add (sumW s ((calcDesc s.links e.tx.id).filter (· ≠ e.tx.id)))
+
+/-- repaired code only (`rebuild_entry_statistics`): both aggregates of the listed entries are rebuilt from the links -/
+def rebuild (s : Pool) (ids : List Nat) : Pool :=
+  { s with entries := s.entries.map fun e =>
+      if e.tx.id ∈ ids then { e with anc := recomputeAnc s e, desc := recomputeDesc s e } else e }
+
+
 /-! ## removal -/
+
+/-- the entry has pooled ancestors and pooled descendants -/
+def isBetween (L : LinkMap) (id : Nat) : Bool := !(calcAnc L id).isEmpty && !(calcDesc L id).isEmpty
 
 /-- `PoolMap::remove_entry` -/
 def removeEntry (s : Pool) (id : Nat) : Pool × Option Entry :=
   match getEntry s id with
   | none => (s, none)
   | some e =>
+    let ancs := calcAnc s.links id
+    let descs := calcDesc s.links id
+    let between := isBetween s.links id
     let es := s.entries.filter (·.tx.id ≠ id)
-    let es := modEntries (calcAnc s.links id) (subDesc e.tx.w) es
-    let es := modEntries (calcDesc s.links id) (subAnc e.tx.w) es
-    let s := removeEdges { s with entries := es } e.tx
+    let es := if between && s.cfg.fixMid then es else
+      modEntries descs (subAnc e.tx.w) (modEntries ancs (subDesc e.tx.w) es)
+    let s := removeEdges { s with entries := es, ghostBad := s.ghostBad || between } e.tx
     let s := { s with links := removeEntryLinks s.links id }
+    let s := if between && s.cfg.fixMid then rebuild s (ancs ++ descs) else s
     let s := track s (some e.status) none
     ({ s with totalSize := s.totalSize - e.tx.size, totalCycles := s.totalCycles - e.tx.cycles }, some e)
 
@@ -344,13 +385,16 @@ def findChildren (s : Pool) (t : Tx) : List Nat :=
 def recordDescendants (s : Pool) (e : Entry) : Pool :=
   let id := e.tx.id
   let children := findChildren s e.tx
-  let s :=
-    if children.isEmpty then s else
-      let L := modLink s.links children fun l => { l with parents := insertNew l.parents id }
-      let L := modLink L [id] fun l => { l with children := children.foldl insertNew l.children }
-      let s := { s with links := L }
-      { s with entries := modEntries (calcDesc s.links id) (addAnc e.tx.w) s.entries }
-  { s with entries := modEntries (calcAnc s.links id) (addDesc e.tx.w) s.entries }
+  if children.isEmpty then
+    { s with entries := modEntries (calcAnc s.links id) (addDesc e.tx.w) s.entries }
+  else
+    let L := modLink s.links children fun l => { l with parents := insertNew l.parents id }
+    let L := modLink L [id] fun l => { l with children := children.foldl insertNew l.children }
+    let s := { s with links := L, ghostBad := true }
+    if s.cfg.fixF3 then rebuild s (id :: (calcAnc s.links id ++ calcDesc s.links id))
+    else
+      let s := { s with entries := modEntries (calcDesc s.links id) (addAnc e.tx.w) s.entries }
+      { s with entries := modEntries (calcAnc s.links id) (addDesc e.tx.w) s.entries }
 
 def conflictIds (s : Pool) (t : Tx) : List Nat := dedup (t.inputs.filterMap (inputUser s))
 
@@ -500,16 +544,5 @@ def submit (s : Pool) (t : Tx) (st : Status) (ts : Nat) : Pool × SubmitRes :=
       let (s3, lim) := limitSize s2
       if t.id ∈ lim then (s3, .full replaced ev lim) else (s3, .ok replaced ev lim)
     | (s2, r) => (s2, .add r)
-
-/-! ## the specification side: recomputation from the current contents -/
-
-def sumW (s : Pool) (ids : List Nat) : W :=
-  ids.foldl (fun acc id => match getEntry s id with
-    | some e => acc.add e.tx.w
-    | none => acc) W.zero
-
-/-- ancestors aggregate of `id` recomputed from the links: itself plus every other ancestor -/
-def recomputeAnc (s : Pool) (e : Entry) : W := e.tx.w.add (sumW s ((calcAnc s.links e.tx.id).filter (· ≠ e.tx.id)))
-def recomputeDesc (s : Pool) (e : Entry) : W := e.tx.w.add (sumW s ((calcDesc s.links e.tx.id).filter (· ≠ e.tx.id)))
 
 end CkbVerif.Pool
